@@ -199,7 +199,7 @@ def run_shard(desc):
                 oattr['aigp'] = int(str(oattr['aigp']), 0)
             except ValueError:
                 pass
-        if sk.get('aigp') and intent['attrs'] and 'aigp' in intent['attrs']:
+        if (sk.get('aigp') or sk['ibgp']) and intent['attrs'] and 'aigp' in intent['attrs']:  # RFC 7311 3.1: enabled by default on IBGP
             eattr['aigp'] = intent['attrs']['aigp']
             res.count('aigp-compared:configured-session')
         elif intent['attrs'] and 'aigp' in intent['attrs']:
